@@ -163,6 +163,25 @@ func module(n Node) *Module {
 	return m
 }
 
+// includingModule returns the module whose tree holds what is written in n's
+// text: for a node of a submodule the latest loaded revision of the module it
+// belongs to that includes that very submodule (nil if none does: the text is
+// then part of no module), for any other node its module.
+func includingModule(n Node) *Module {
+	sub := RootNode(n)
+	if sub.Kind() != "submodule" {
+		return sub
+	}
+	for _, m := range sub.Modules.revisions(sub.BelongsTo.Name) {
+		for _, i := range m.Include {
+			if i.Module == sub {
+				return m
+			}
+		}
+	}
+	return nil
+}
+
 // NodePath returns the full path of the node from the module name.
 func NodePath(n Node) string {
 	var path string
